@@ -51,8 +51,14 @@ func appPkgs() []appPkg {
 				}
 				return p
 			},
-			func() (func(bool, []byte) error, interface{}) { var c multicastsetup.Command; return c.UnmarshalBinary, &c },
-			func() (func(bool, []byte) error, interface{}) { var c multicastsetup.Commands; return c.UnmarshalBinary, &c }},
+			func() (func(bool, []byte) error, interface{}) {
+				var c multicastsetup.Command
+				return c.UnmarshalBinary, &c
+			},
+			func() (func(bool, []byte) error, interface{}) {
+				var c multicastsetup.Commands
+				return c.UnmarshalBinary, &c
+			}},
 		{"fragmentation",
 			func(up bool, cid byte) appPayload {
 				p, err := fragmentation.GetCommandPayload(up, fragmentation.CID(cid))
@@ -61,8 +67,14 @@ func appPkgs() []appPkg {
 				}
 				return p
 			},
-			func() (func(bool, []byte) error, interface{}) { var c fragmentation.Command; return c.UnmarshalBinary, &c },
-			func() (func(bool, []byte) error, interface{}) { var c fragmentation.Commands; return c.UnmarshalBinary, &c }},
+			func() (func(bool, []byte) error, interface{}) {
+				var c fragmentation.Command
+				return c.UnmarshalBinary, &c
+			},
+			func() (func(bool, []byte) error, interface{}) {
+				var c fragmentation.Commands
+				return c.UnmarshalBinary, &c
+			}},
 		{"firmwaremanagement",
 			func(up bool, cid byte) appPayload {
 				p, err := firmwaremanagement.GetCommandPayload(up, firmwaremanagement.CID(cid))
@@ -71,8 +83,14 @@ func appPkgs() []appPkg {
 				}
 				return p
 			},
-			func() (func(bool, []byte) error, interface{}) { var c firmwaremanagement.Command; return c.UnmarshalBinary, &c },
-			func() (func(bool, []byte) error, interface{}) { var c firmwaremanagement.Commands; return c.UnmarshalBinary, &c }},
+			func() (func(bool, []byte) error, interface{}) {
+				var c firmwaremanagement.Command
+				return c.UnmarshalBinary, &c
+			},
+			func() (func(bool, []byte) error, interface{}) {
+				var c firmwaremanagement.Commands
+				return c.UnmarshalBinary, &c
+			}},
 	}
 }
 
@@ -94,8 +112,8 @@ func (h *H) appReuse(mult int) {
 	n, nontrivial := 0, 0
 	report := func(what string, b1, b2 []byte, used, fresh interface{}, su, sf string) {
 		h.s.Fail(cases.GoFail{
-			Key:  fmt.Sprintf("app-reuse:%s:%s:%s", what, hexs(b1), hexs(b2)),
-			What: fmt.Sprintf("%s: decoding b2 into a value that decoded b1 before differs from decoding b2 into a fresh value (used: %s %+v, fresh: %s %+v)", what, su, used, sf, fresh),
+			Key:    fmt.Sprintf("app-reuse:%s:%s:%s", what, hexs(b1), hexs(b2)),
+			What:   fmt.Sprintf("%s: decoding b2 into a value that decoded b1 before differs from decoding b2 into a fresh value (used: %s %+v, fresh: %s %+v)", what, su, used, sf, fresh),
 			Replay: map[string]interface{}{"api": what + ".UnmarshalBinary(b1) then (b2) on the same value vs (b2) on a fresh value", "b1": hexs(b1), "b2": hexs(b2)},
 		})
 	}
